@@ -12,12 +12,12 @@ def sigs():
         rc, out = run([model.MODEL_BIN, '--list'], timeout=60)
         for l in out.split('\n'):
             t = l.split(' ')
-            if len(t) >= 2: _sigs[(int(t[0]), t[1])] = t[2] if len(t) > 2 else ''
+            if len(t) >= 2 and t[0] in ('0', '1'): _sigs[(int(t[0]), t[1])] = t[2] if len(t) > 2 else ''
     return _sigs
 
 BUILD_ID = {'ark': 0, 'min': 1}
-BYTES_ARG = re.compile(r'^(el\.dec|el\.deser|af\.deser|enc\.deser)')
-BYTES_RES = {'el.enc', 'el.enc.from_elem', 'el.enc.from_ref', 'el.enc.arr_from', 'el.ser', 'af.ser'}
+BYTES_ARG = re.compile(r'^(el\.dec|el\.deser|af\.deser|enc\.deser|af\.from_random_bytes|el\.rand|af\.rand)')
+BYTES_RES = {'el.enc', 'el.enc.from_elem', 'el.enc.from_ref', 'el.enc.arr_from', 'el.ser', 'af.ser', 'el.hash', 'af.hash'}
 ERRCODE = {'InvalidEncoding': 1, 'InvalidSliceLength': 2, 'Ser:InvalidData': 1, 'Ser:IoError': 3}
 
 def hexs(s): return [int(x, 16) for x in s.split(',')] if s != '-' else []
